@@ -35,6 +35,7 @@ physically by at most one ulp (1.1e-16 relative).  Equality with the baseline is
 """
 import itertools
 import json
+import os
 import sys
 from fractions import Fraction
 
@@ -611,7 +612,9 @@ def main(tier):
                        "every calculated attribute with the baseline build; distinct_outcomes counts distinct "
                        "(outcome, value digest) pairs including the x1.1 probes that must move the result",
     }
-    return run.finish(cov, assumptions=[
+    # EFMC_CONFIRM=0 skips the double replay of every violation in fresh processes (only meant for mutation
+    # calibration, where a mutant yields dozens of signatures whose replays dominate the run time)
+    return run.finish(cov, confirm=os.environ.get("EFMC_CONFIRM", "1") != "0", assumptions=[
         "re-expressed magnitude = correctly rounded float of the exact rational value (factor table validated against "
         "pint at start-up); inexact re-expressions (<= 1 ulp) are not judged where the real code is discontinuous at "
         "the input (nudge +-1e-13 changes the result)",
